@@ -119,6 +119,12 @@ def run(ctx: C.Ctx):
             n = B.shape[0]
             costs, ck = gen.gen_costs(rng, n, B, kind="offset_small_spread")
         case = OptCase(B, "ccqr", costs=costs, meta={"mk": mk, "ck": ck})
+        if idx % 6 == 1 and float(np.max(np.abs(B), initial=0)) < 2 ** 20 and np.array_equal(B.astype(np.float32).astype(float), B):
+            # a single-precision basis matrix with costs far larger than the norms: `norm − cost` is still a float64 quantity
+            case.meta["dtype"] = "float32"
+            if costs is not None and idx % 12 == 1:
+                case.costs = costs + float(rng.choice([2 ** 24, 2 ** 27, 10 ** 8]))
+            ctx.count("basis_dtype:float32")
         ctx.evaluations += 1
         ctx.count("matrix:" + mk)
         ctx.count("costs:" + ck)
